@@ -30,7 +30,7 @@ Lemma firstn_protocol_ge : forall k, (9 <= k)%nat -> firstn k protocol = protoco
 Proof. intros k H. apply firstn_all2. exact H. Qed.
 
 Lemma crash_ge9 : forall prior new sz k, (9 <= k)%nat -> crash prior new sz k = crash prior new sz 9.
-Proof. intros. unfold crash. now rewrite !firstn_protocol_ge by lia. Qed.
+Proof. intros. unfold crash, crash_from. now rewrite !firstn_protocol_ge by lia. Qed.
 
 (* the target after a crash at k: the rename (step 8) is the one and only point of change *)
 Lemma crash_target : forall prior new sz k,
@@ -40,9 +40,9 @@ Proof.
   destruct (Nat.leb 9 k) eqn:G.
   - apply Nat.leb_le in G. rewrite crash_ge9 by exact G.
     replace (Nat.leb k 7) with false by (symmetry; apply Nat.leb_gt; lia).
-    unfold crash. destruct prior; destruct (bufwriter_cap <=? sz) eqn:E; crunch; rewrite E; crunch.
+    unfold crash, crash_from. destruct prior; destruct (bufwriter_cap <=? sz) eqn:E; crunch; rewrite E; crunch.
   - apply Nat.leb_gt in G.
-    do 9 (destruct k as [|k]; [unfold crash; destruct prior; destruct (bufwriter_cap <=? sz) eqn:E; crunch; rewrite ?E; crunch|]).
+    do 9 (destruct k as [|k]; [unfold crash, crash_from; destruct prior; destruct (bufwriter_cap <=? sz) eqn:E; crunch; rewrite ?E; crunch|]).
     lia.
 Qed.
 
@@ -53,9 +53,9 @@ Proof.
   intros prior new sz k i.
   destruct (Nat.leb 9 k) eqn:G.
   - apply Nat.leb_le in G. rewrite crash_ge9 by exact G.
-    unfold crash. destruct prior; destruct (bufwriter_cap <=? sz) eqn:E; crunch; rewrite ?E; crunch; discriminate.
+    unfold crash, crash_from. destruct prior; destruct (bufwriter_cap <=? sz) eqn:E; crunch; rewrite ?E; crunch; discriminate.
   - apply Nat.leb_gt in G.
-    do 9 (destruct k as [|k]; [unfold crash; destruct prior; destruct (bufwriter_cap <=? sz) eqn:E; crunch; rewrite ?E; crunch;
+    do 9 (destruct k as [|k]; [unfold crash, crash_from; destruct prior; destruct (bufwriter_cap <=? sz) eqn:E; crunch; rewrite ?E; crunch;
                                 intros H; try discriminate H; inversion H; subst; discriminate|]).
     lia.
 Qed.
@@ -69,9 +69,9 @@ Proof.
   intros prior new sz k.
   destruct (Nat.leb 9 k) eqn:G.
   - apply Nat.leb_le in G. rewrite crash_ge9 by exact G.
-    unfold crash. destruct prior; destruct (bufwriter_cap <=? sz) eqn:E; crunch; rewrite ?E; crunch; auto.
+    unfold crash, crash_from. destruct prior; destruct (bufwriter_cap <=? sz) eqn:E; crunch; rewrite ?E; crunch; auto.
   - apply Nat.leb_gt in G.
-    do 9 (destruct k as [|k]; [unfold crash; destruct prior; destruct (bufwriter_cap <=? sz) eqn:E; crunch; rewrite ?E; crunch; auto|]).
+    do 9 (destruct k as [|k]; [unfold crash, crash_from; destruct prior; destruct (bufwriter_cap <=? sz) eqn:E; crunch; rewrite ?E; crunch; auto|]).
     lia.
 Qed.
 
@@ -86,9 +86,9 @@ Proof.
   intros prior new sz k.
   destruct (Nat.leb 9 k) eqn:G.
   - apply Nat.leb_le in G. rewrite crash_ge9 by exact G.
-    unfold crash. destruct prior; destruct (bufwriter_cap <=? sz) eqn:E; crunch; rewrite ?E; crunch.
+    unfold crash, crash_from. destruct prior; destruct (bufwriter_cap <=? sz) eqn:E; crunch; rewrite ?E; crunch.
   - apply Nat.leb_gt in G.
-    do 9 (destruct k as [|k]; [unfold crash; destruct prior; destruct (bufwriter_cap <=? sz) eqn:E; crunch; rewrite ?E; crunch|]).
+    do 9 (destruct k as [|k]; [unfold crash, crash_from; destruct prior; destruct (bufwriter_cap <=? sz) eqn:E; crunch; rewrite ?E; crunch|]).
     lia.
 Qed.
 
